@@ -77,6 +77,15 @@ class Repo:
         r = self.repo
         existing = [n for n in NAMES if os.path.isfile(os.path.join(r, n))]
         op = op or rng.choice(["write", "write", "write", "modify", "delete", "mv", "gitmv", "add", "addall", "rmcached", "commit", "commit"])
+        if op == "bulk":
+            # many new files at once: more than two analysis batches (50), an odd number of them
+            k = rng.choice([101, 113, 150, 127])
+            d = rng.choice(["a/bulk", "b/gen ä", "d/many"])
+            os.makedirs(os.path.join(r, d), exist_ok=True)
+            for i in range(k):
+                open(os.path.join(r, d, "%s %03d.txt" % (rng.choice(["f", "é", "z z"]), i)), "wb").write(b"bulk %d %d\n" % (self.serial, i))
+            self.serial += 1
+            return ("bulk", d, k)
         if op == "write":
             n = rng.choice(NAMES); os.makedirs(os.path.dirname(os.path.join(r, n)) or r, exist_ok=True)
             open(os.path.join(r, n), "wb").write(self.fresh_content(rng)); return ("write", n)
@@ -204,7 +213,7 @@ def scenario(ctx, sseed, focus):
             if focus == "C07" and r < 0.45:
                 c07_round(ctx, repo, rng, trail)
                 continue
-            trail.append(list(repo.apply(rng)))
+            trail.append(list(repo.apply(rng, "bulk" if (focus == "C02" and rng.random() < 0.12) else None)))
             opts = {}
             k = rng.random()
             if k < 0.2 and repo.commits: opts["begin"] = rng.choice(repo.commits)
